@@ -72,11 +72,14 @@ def generate(seed, tier, index):
     if tier == "thorough" and isp == "Poisson":
         K = 600
     seeds = [rf.bits(31) for _ in range(K)]
-    if rf.chance(0.5):
-        seeds[rf.randint(0, K - 1)] = rf.choice([0, 0, 1, 2 ** 31 - 1, 2 ** 32 - 1])   # boundary seeds
     # reproducibility: some seeds appear twice
     for _ in range(3):
         seeds.append(seeds[rf.randint(0, K - 1)])
+    if rf.chance(0.5):
+        # boundary seeds, each twice (kept out of the first K set-ups: the pooled statistics need independent streams, and
+        # the same few boundary seeds recur in many cases)
+        b = rf.choice([0, 0, 1, 2 ** 31 - 1, 2 ** 32 - 1])
+        seeds += [b, b]
     ops = [["poison", rf.choice([0, 0xff])], ["setup_batch", seeds], ["poison", rf.choice([0, 0x7f])], ["setup"],
            ["observe"], ["output"], ["finalize"]]
     eps = [{"obj": 0, "kind": kind, "via": rf.choice(["LibRDEngine", "factory"]), "script": 0, "ops": ops}]
